@@ -2,5 +2,6 @@ SPECIFICATION Spec
 CONSTANTS GEN = FALSE
           STEPS = 2
 INVARIANT Isolation
+INVARIANT SensitiveInv
 INVARIANT Emit
 CHECK_DEADLOCK FALSE
